@@ -13,6 +13,8 @@ def run_c_half(ck):
 
 
 def run(ck):
+    import cboundary
+    cboundary.install(ck, big=False, junk=2)    # deterministic edge catalogue with overdriven storage
     parts = run_c_half(ck)            # proves props/C07.v (both halves) and runs the C ties
     cside.fill_coverage(ck, parts, getattr(ck, "_c07_items", []), cside.RULE)
     ck.assumptions.extend(a for a in pywire.ASSUME if a not in ck.assumptions)
